@@ -119,13 +119,13 @@ def scan_assumptions(text: str) -> List[str]:
                 # name = next fn / struct / ident on this or following lines
                 name = ""
                 for k in range(i, min(i + 4, len(lines))):
-                    m = re.search(r"\b(?:fn|struct)\s+([A-Za-z_][A-Za-z0-9_]*)", lines[k])
-                    if m:
-                        name = m.group(1)
-                        break
-                    m = re.search(r"assume_specification\s*(?:<[^>]*>)?\s*\[\s*([^\]]+)\]", lines[k])
+                    m = re.search(r"assume_specification\s*(?:<[^\[]*>)?\s*\[\s*(.+?)\s*\]\s*\(", lines[k])
                     if m:
                         name = m.group(1).strip()
+                        break
+                    m = re.search(r"\b(?:fn|struct|const)\s+([A-Za-z_][A-Za-z0-9_]*)", lines[k])
+                    if m:
+                        name = m.group(1)
                         break
                 hits.append(f"{what}:{name}")
     return sorted(set(hits))
